@@ -77,7 +77,17 @@ static bool same(const Obs& x, const Obs& y)
     for (int i = 0; i < NK; ++i) if (x.fin[i] != y.fin[i] || (x.fin[i] && x.finv[i] != y.finv[i])) return false;
     return true;
 }
-static void prefix(C& c, int m) { for (int i = 0; i < m; ++i) x_insert(c, (uint64_t)i, 100 + i, 3, 1000000); }
+// the common start: m entries written at time 0.  For clean_expired_values / dynamically_age the clock then moves past the
+// TTL / the aging tick, so that the method under test has real work to do (several expired / idle entries) and a second
+// logical thread nested between its critical sections can observe a partial sweep.
+static void prefix(C& c, int m)
+{
+    __vf_set_now(0);
+    for (int i = 0; i < m; ++i) x_insert(c, (uint64_t)i, 100 + i, 3, 1000000);
+#if METHOD == OP_CLEAN || METHOD == OP_AGE
+    __vf_set_now(3000000);
+#endif
+}
 static uint64_t opA(C& c, uint64_t k1, uint64_t k2)
 {
     Ev e[RMAX];
